@@ -221,6 +221,10 @@ def scoped_nodes(idx):
             for fi in idx.funcs:
                 if fi.module is not mod:
                     continue
+                if getattr(fi, "absorbed", False):
+                    # a private helper inlined at every call site: its statements are seen inside its callers
+                    owned.update(id(n) for n in ast.walk(fi.node_orig))
+                    continue
                 for n in own_nodes(fi.node):
                     out.append((mod, fi, n))
                     owned.add(id(n))
@@ -228,6 +232,7 @@ def scoped_nodes(idx):
                     out.append((mod, fi, n))
                     owned.add(id(n))
                 owned.add(id(fi.node))
+                owned.update(id(n) for n in ast.walk(fi.node_orig))
             for n in ast.walk(mod.tree):
                 if id(n) not in owned and not isinstance(n, (ast.FunctionDef,)):
                     out.append((mod, None, n))
@@ -237,3 +242,63 @@ def scoped_nodes(idx):
 
 def where(mod, fi):
     return "%s::%s" % (mod.rel, fi.qualname if fi is not None else "<module>")
+
+
+def single_defs(fi):
+    """local names bound exactly once by a plain assignment (not a loop target, not augmented, not a parameter)"""
+    k = ("sdefs", id(fi), id(fi.node))
+    if k in _cache:
+        return _cache[k]
+    counts = {}
+    values = {}
+    params = {a.arg for a in fi.node.args.args + fi.node.args.kwonlyargs}
+    if fi.node.args.vararg:
+        params.add(fi.node.args.vararg.arg)
+    if fi.node.args.kwarg:
+        params.add(fi.node.args.kwarg.arg)
+    for n in own_nodes(fi.node):
+        if isinstance(n, ast.Assign):
+            for t in n.targets:
+                if isinstance(t, ast.Name):
+                    counts[t.id] = counts.get(t.id, 0) + 1
+                    values[t.id] = n.value
+                else:
+                    for x in ast.walk(t):
+                        if isinstance(x, ast.Name) and isinstance(x.ctx, ast.Store):
+                            counts[x.id] = counts.get(x.id, 0) + 2
+        elif isinstance(n, (ast.AugAssign, ast.AnnAssign)) and isinstance(n.target, ast.Name):
+            counts[n.target.id] = counts.get(n.target.id, 0) + 2
+        elif isinstance(n, (ast.For, ast.comprehension)):
+            for x in ast.walk(n.target):
+                if isinstance(x, ast.Name):
+                    counts[x.id] = counts.get(x.id, 0) + 2
+        elif isinstance(n, ast.ExceptHandler) and n.name:
+            counts[n.name] = counts.get(n.name, 0) + 2
+        elif isinstance(n, ast.withitem) and n.optional_vars is not None:
+            for x in ast.walk(n.optional_vars):
+                if isinstance(x, ast.Name):
+                    counts[x.id] = counts.get(x.id, 0) + 2
+    out = {nm: values[nm] for nm, c in counts.items() if c == 1 and nm in values and nm not in params}
+    _cache[k] = out
+    return out
+
+
+def expand(fi, expr, depth=6):
+    """`expr` with single-assignment locals replaced by their defining expressions (for pattern matching only)"""
+    import copy
+
+    defs = single_defs(fi)
+    if expr is None:
+        return None
+
+    class T(ast.NodeTransformer):
+        def __init__(self, d):
+            self.d = d
+
+        def visit_Name(self, node):
+            if isinstance(node.ctx, ast.Load) and node.id in defs and self.d > 0:
+                v = copy.deepcopy(defs[node.id])
+                return T(self.d - 1).visit(v)
+            return node
+
+    return T(depth).visit(copy.deepcopy(expr))
